@@ -1069,3 +1069,56 @@ Proof.
   pose proof (K_exec _ _ _ _ _ Hw (Inv_init c w0) HK0 Hr) as (K1 & _). rewrite app_nil_r in K1. split; auto.
   eapply eval_times_bounds; eauto using Inv_init.
 Qed.
+
+(* ================================================================== *)
+(* A stop requested during the start phase (after run_storage's reset): no cycle at all. *)
+Definition stopped_before_loop (s : st) : Prop :=
+  stop s = true /\ cycles s = [] /\ (ph s = PStart \/ ph s = PTop \/ ph s = PDone).
+
+Lemma stopped_before_loop_step : forall c s l s', gstep c s l = Some s' -> stopped_before_loop s -> stopped_before_loop s'.
+Proof.
+  intros c s l s' H (Hst & Hcy & Hph).
+  destruct s as [ev0 pend0 push0 stop0 consec0 ph0 wall0 notif0 cycles0 cut0]. simpl in Hst, Hcy, Hph. subst stop0 cycles0.
+  unfold gstep in H. destruct (step c _ l) as [s1|] eqn:Hs; [|discriminate].
+  unfold step in Hs. unfold stopped_before_loop. destruct (is_other l) eqn:Ho.
+  - assert (s' = s1) by (simpl in H; destruct ph0; destruct l; simpl in Ho; try discriminate; inv_some H; auto).
+    subst s1. clear H.
+    destruct l; simpl in Ho; try discriminate; simpl in Hs.
+    + destruct (lock_held ph0); [discriminate|]. inv_some Hs; simpl; auto.
+    + destruct (0 <? notif0); inv_some Hs; simpl. repeat split; auto.
+      destruct Hph as [->|[->| ->]]; simpl; auto.
+    + destruct (lock_held ph0); [discriminate|]. inv_some Hs; simpl; auto.
+    + destruct (0 <? notif0); inv_some Hs; simpl. repeat split; auto.
+      destruct Hph as [->|[->| ->]]; simpl; auto.
+  - destruct Hph as [->|[->| ->]]; destruct l; simpl in Ho; try discriminate; simpl in Hs; try discriminate;
+    try (match type of Hs with do_req _ _ _ _ _ _ _ = Some _ =>
+           destruct (do_req_frame _ _ _ _ _ _ _ _ Hs) as (E1 & E2 & E3 & E4 & E5 & E6 & E7 & E8 & _);
+           simpl in *; inv_some H; rewrite E3, E5, E7; auto end);
+    try (match type of Hs with (if ?b then _ else _) = _ => destruct b eqn:Eb end; try discriminate).
+    all: try solve [inv_some Hs; inv_some H; simpl; auto 6].
+Qed.
+
+Lemma stopped_before_loop_exec : forall c ls s s', exec c s ls = Some s' -> stopped_before_loop s ->
+  stopped_before_loop s' /\ (forall t, ~ In (LAdv t) ls).
+Proof.
+  induction ls as [|l r IH]; simpl; intros s s' H HS; [inv_some H; auto|].
+  destruct (gstep c s l) as [s1|] eqn:E; [|discriminate].
+  destruct (IH _ _ H (stopped_before_loop_step _ _ _ _ E HS)) as (HS' & Hn). split; auto.
+  intros t [Hl|Hin]; [|apply (Hn t); auto]. subst l.
+  destruct HS as (_ & _ & Hph). unfold gstep in E.
+  destruct (step c s (LAdv t)) as [s2|] eqn:Hs; [|discriminate].
+  unfold step in Hs; simpl in Hs. destruct Hph as [Hp|[Hp|Hp]]; rewrite Hp in Hs; discriminate.
+Qed.
+
+Lemma stop_during_start_l : forall c w0 ls s ls' s', wfc c -> run c w0 ls s -> ph s = PStart -> stop s = true ->
+  exec c s ls' = Some s' ->
+  stop s' = true /\ cycles s' = [] /\ (ph s' = PStart \/ ph s' = PTop \/ ph s' = PDone) /\
+  ~ In LTop ls' /\ (forall t, ~ In (LEvalBegin t) ls') /\ (forall t, ~ In (LAdv t) ls').
+Proof.
+  intros c w0 ls s ls' s' Hw Hr Hp Hst H.
+  assert (HS : stopped_before_loop s).
+  { destruct (run_Inv _ _ _ _ Hw Hr) as (HP & _). unfold phase_inv in HP. rewrite Hp in HP.
+    unfold stopped_before_loop. tauto. }
+  destruct (stopped_before_loop_exec _ _ _ _ H HS) as ((A & B & C) & D).
+  destruct (stop_exec _ _ _ _ H Hst) as (_ & N1 & _ & N3). repeat split; auto.
+Qed.
